@@ -89,6 +89,8 @@ package fs
 // WriteAtomic: the final name is replaced only by a fully written, fsynced and closed temporary file; success is
 // reported only after the rename and the directory fsync succeeded; a failure before the rename removes the
 // temporary file and leaves the final name untouched; after a failed rename the (complete) temporary file is kept.
+// The temporary file is created if missing and starts empty (O_CREATE|O_TRUNC): without O_TRUNC a longer stale "<name>.tmp"
+// left by an earlier crash would keep its tail and the rename would publish a torn file.
 //@ func localFileSystem.WriteAtomic
 //@   mode int
 //@   requires !fsTmpOpened && !fsRemoveTried && !fsRenameTried && !fsRenamed && !fsDirSynced
@@ -98,6 +100,8 @@ package fs
 //@   modifies fsRenamed
 //@   modifies fsDirSynced
 //@   modifies fsDataSynced
+//@   at-call os.OpenFile requires created-and-truncated: arg1 / os.O_TRUNC % 2 == 1 && arg1 / os.O_CREATE % 2 == 1
+//@   at-call os.OpenFile requires the-temporary-sibling: arg0 != name
 //@   at-call os.Rename requires durable-before-rename: file.written && file.synced && file.closed
 //@   at-call os.Rename requires temp-onto-final: arg1 == name && arg0 != name
 //@   at-call os.Remove requires never-the-final-name: arg0 != name
@@ -113,3 +117,35 @@ package fs
 //@   modifies fsTmpOpened
 //@   modifies fsDataSynced
 //@   ensures  durable: result1 == nil ==> fsDataSynced && result0 == len(buffer)
+//
+// The interface methods, as seen by callers that hold an fs.FileSystem (implemented by localFileSystem, whose methods are
+// proved against these clauses above).
+//@ func FileSystem.WriteAtomic
+//@   assumed interface dispatch: the only implementation, localFileSystem.WriteAtomic, is proved against its contract above
+//@   modifies fsTmpOpened
+//@   modifies fsRemoveTried
+//@   modifies fsRenameTried
+//@   modifies fsRenamed
+//@   modifies fsDirSynced
+//@   modifies fsDataSynced
+//@   ensures  commit: result1 == nil ==> fsRenamed && fsDirSynced && result0 == len(buffer)
+//@   ensures  untouched: !fsRenameTried ==> result1 != nil && !fsRenamed
+//@ func FileSystem.Write
+//@   assumed interface dispatch: the only implementation, localFileSystem.Write, is proved against its contract above
+//@   modifies fsTmpOpened
+//@   modifies fsDataSynced
+//@   ensures  durable: result1 == nil ==> fsDataSynced && result0 == len(buffer)
+//
+// MustFlushAtomic (the entry point used for manifests and part metadata): when it returns, the final name has been
+// replaced by rename and the directory entry is durable; every other outcome panics.
+//@ func MustFlushAtomic
+//@   mode int
+//@   requires !fsTmpOpened && !fsRemoveTried && !fsRenameTried && !fsRenamed && !fsDirSynced
+//@   modifies fsTmpOpened
+//@   modifies fsRemoveTried
+//@   modifies fsRenameTried
+//@   modifies fsRenamed
+//@   modifies fsDirSynced
+//@   modifies fsDataSynced
+//@   allow panic when true
+//@   ensures  replaced-atomically-and-durably: fsRenamed && fsDirSynced
